@@ -1,5 +1,5 @@
 (* s_pa.ml — stream "pa": a whole parse on the DeferredReader model (DIMACS family, solver log, AIGER).
-   case:  pa <parser> <ty> <flags> <datahex> <events> <pre> <chunk> <ctor>
+   case:  pa <parser> <ty> <flags> <datahex> <events> <pre> <chunk> <ctor>      (AIGER flags kN: AigerStream.parse_*_take)
    trace: <items ';'-separated> => <final> | calls=<n>                                            *)
 open Model
 open Util
@@ -193,7 +193,16 @@ let run (toks : string list) : string =
        | "aag" | "aig" ->
            let binary = (parser = "aig") in
            let maxc = max_code ty in
-           let r = crun ((if binary then parse_aig else parse_aag) fuel maxc lrs_init) s1 in
+           (* flag kN (streaming API only): at most N entries taken per section, the section switches skip the rest *)
+           let take = (match String.index_opt flags 'k' with
+             | Some i when not (has 'w' || has 'x') ->
+                 let j = ref (i + 1) in
+                 while !j < String.length flags && flags.[!j] >= '0' && flags.[!j] <= '9' do incr j done;
+                 Some (if !j = i + 1 then 0 else int_of_string (String.sub flags (i + 1) (!j - i - 1)))
+             | _ -> None) in
+           let r = (match take with
+             | Some k -> crun ((if binary then parse_aig_take else parse_aag_take) fuel maxc (nat_of_int k) lrs_init) s1
+             | None -> crun ((if binary then parse_aig else parse_aag) fuel maxc lrs_init) s1) in
            of_cres r (fun (res, _) s ->
              let ((hdr, items), fin) = res in
              let hitem = (match hdr with Some h -> [show_aheader h] | None -> []) in
